@@ -263,6 +263,11 @@ def gen_tree(rng, depth, d, names, scalar_ok=True, allow_expm=True):
         for _ in range(n):
             z = rng.random()
             sc.append(float(rng.uniform(-2, 2)) if z < 0.4 else complex(rng.uniform(-1, 1), rng.uniform(-1, 1)) if z < 0.8 else int(rng.integers(1, 4)))
+        if rng.random() < 0.15:
+            # exact Python integers whose product leaves the 64-bit range while the overall coefficient is ordinary
+            # (scalars are numbers, not arrays: 10**11 * 10**12 * 1e-23 is 1.0)
+            a_, b_ = int(rng.integers(10, 13)), int(rng.integers(10, 13))
+            sc = [10 ** a_, 10 ** b_, float(rng.uniform(0.5, 2)) * 10.0 ** (-(a_ + b_))]
         args = sc + [gen_tree(rng, depth - 1, d, names, allow_expm=allow_expm)]
         if rng.random() < 0.4:
             # matrix first: exposes in-place scaling of a caller-owned leaf
@@ -462,6 +467,24 @@ def c19_driver(a, col):
                 r12 = e1.overlap_integral(e2, delay)
                 r21 = e2.overlap_integral(e1, -delay)
             exc = None
+            if x >= 0.1 and rng.random() < 0.35:
+                # history on the SAME two envelope objects: the profile of one of them is replaced (or its width is
+                # edited) and the overlap is asked for again with the same delay; then the first question once more.
+                # The contract judges every answer against the profiles the envelopes hold at that moment.
+                who = e1 if rng.random() < 0.5 else e2
+                old_profile = who.temporal_profile
+                old_params = dict(old_profile.params)
+                f = float(rng.choice([3.0, 1 / 3.0, 1.7]))
+                if rng.random() < 0.6:
+                    who.temporal_profile = TemporalProfile.Gaussian.with_params(mu=old_params["mu"], sigma=old_params["sigma"] * f)
+                else:
+                    who.temporal_profile.params["sigma"] = old_params["sigma"] * f
+                kw = {"n": nidx} if nidx != 1.0 else {}
+                e1.overlap_integral(e2, delay, **kw)
+                e2.overlap_integral(e1, -delay, **kw)
+                who.temporal_profile = old_profile
+                who.temporal_profile.params["sigma"] = old_params["sigma"]
+                e1.overlap_integral(e2, delay, **kw)
         except Exception as e:  # noqa: BLE001
             exc = e
         _flush("C19", col, replay)
